@@ -30,3 +30,38 @@ func VerifC20Expression() {
 	_, _ = ExpressionParser(text, 0, false)
 	rt.Reach("returned")
 }
+
+// verifC20Contexts: concrete openings that put the parser into its deeper states; the symbolic
+// runes that follow then explore that state as exhaustively as the plain harness explores the
+// start of a block.
+var verifC20Contexts = []string{
+	"a ", "a b", "a $b", "a $b[", "a @b[", "a $b[{", "a \"", "a '", "a (", "a {", "a %[", "a %{", "a %(", "a <",
+	"a -> ", "a | b ", "a = ", "a #", "a /#", "a ${", "a @{", "a $(", "a \\", "a: ", "a b=", "$a = ", "a ? b ", "a && ", "a; ",
+	"a \"$(", "a [", "a [[", "a *", "a ~", "%[", "%{a:", "a <b> ", "1 + ", "a => ", "a \u00e9", "\u00e9 ", "a \"\u00e9", "a #\u00e9",
+}
+
+// verifC20Tail: like verifC20Input plus carriage return (non-ASCII runes appear in contexts only:
+// the engine does not encode symbolic non-ASCII runes into UTF-8).
+func verifC20Tail(n int) []rune {
+	r := rt.Runes("tail", n)
+	for i := range r {
+		c := r[i]
+		rt.Assume(rt.Or(rt.Or(rt.And(c >= ' ', c <= '~'), rt.Or(c == '\n', c == '\t')), c == '\r'))
+	}
+	return r
+}
+
+// VerifC20Context: ParseBlock(context + tail) for every context of the pool and every tail of
+// 0..n runes.
+func VerifC20Context() {
+	k := rt.Param("contexts")
+	if k > len(verifC20Contexts) {
+		k = len(verifC20Contexts)
+	}
+	ctx := verifC20Contexts[rt.Choice("context", k)]
+	text := append([]rune(ctx), verifC20Tail(rt.Choice("len", rt.Param("n")+1))...)
+	text = text[:len(text):len(text)] // no spare capacity: reading past the end must not go unnoticed
+	tree, err := ParseBlock(text)
+	rt.Reach("context-returned")
+	rt.Assert(err != nil || tree != nil, "neither a tree nor an error")
+}
